@@ -209,4 +209,20 @@ PROPS = {
                  thorough=dict(checks=4000, shards=16, budget_s=3300, shrink="3m")),
         ],
     ),
+    "C03": dict(
+        level="exploration",
+        text="Exploration by generated search: QUIC streams over real multi-hop meshes whose links run generated fault programmes (loss with bounded rate, duplication, delay, reordering), "
+             "with generated write/read boundaries in both directions, optional re-routing by cutting the active path, directly or through the TCP proxy bridge; every byte read is checked "
+             "against its offset in the written stream (safety, always) and completeness + end-of-stream are required for loss rates the transport is specified to survive.",
+        note="Trusted: the fault-injecting in-memory links; quic-go for congestion/retransmission. Above 3 % loss per link an incomplete transfer is inconclusive, not a violation. "
+             "Half-close through the TCP bridge is unconstrained (the bridge closes its peer fully by design).",
+        technique="property-based testing (rapid) with fault injection: generated loss/dup/delay/reorder schedules and write scripts, offset-function oracle on every byte",
+        assumptions=["the dialling side sends at least one byte (receptor streams are announced to the acceptor by the first write)",
+                     "completeness deadline 75 s; QUIC idle timeout 30 s"],
+        parts=[
+            part("streams", "netprops", "TestC03", "C03",
+                 quick=dict(checks=48, shards=8, budget_s=600),
+                 thorough=dict(checks=640, shards=16, budget_s=3400, shrink="3m")),
+        ],
+    ),
 }
